@@ -383,26 +383,44 @@ impl<P: SizedPayload> St<P> {
         let h = self.take(i);
         let kind = h.kind();
         let mut moved = false;
+        // one release in four runs with a panic armed inside the payload's destructor: the value still counts as
+        // destroyed (once) and the block must still be returned, as for Box<T>
+        let dp = (b & 0xC0) == 0xC0 && kind != Kind::Swap;
+        let mut unwound = false;
+        macro_rules! rel {
+            ($h:expr) => {{
+                let hh = $h;
+                if dp {
+                    tok::drop_panic_at(1);
+                }
+                let r = lib!(catch_unwind(AssertUnwindSafe(move || drop(hh))));
+                tok::drop_panic_at(0);
+                if let Err(e) = r {
+                    unwound = true;
+                    drop(e);
+                }
+            }};
+        }
         let how: &'static str = match h {
             H::Arc(a) => {
-                lib!(drop(a));
+                rel!(a);
                 "drop(Arc)"
             }
             H::Off(o) => {
-                lib!(drop(o));
+                rel!(o);
                 "drop(OffsetArc)"
             }
             H::U1(u) => {
-                lib!(drop(u));
+                rel!(u);
                 "drop(ArcUnion first)"
             }
             H::U2(u) => {
-                lib!(drop(u));
+                rel!(u);
                 "drop(ArcUnion second)"
             }
             H::Uniq(u) => {
                 if pick(b, 2) == 0 {
-                    lib!(drop(u));
+                    rel!(u);
                     "drop(UniqueArc)"
                 } else {
                     let id = self.allocs[ai].tok_id;
@@ -414,15 +432,15 @@ impl<P: SizedPayload> St<P> {
                 }
             }
             H::Raw(p) => {
-                lib!(drop(unsafe { Arc::from_raw(p) }));
+                rel!(unsafe { Arc::from_raw(p) });
                 "drop(Arc::from_raw(raw))"
             }
             H::Dyn(d) => {
-                lib!(drop(d));
+                rel!(d);
                 "drop(Arc<dyn>)"
             }
             H::Hs(h) => {
-                lib!(drop(h));
+                rel!(h);
                 "drop(Arc<HeaderSlice<(),T>>)"
             }
             #[cfg(feature = "arc-swap")]
@@ -436,7 +454,10 @@ impl<P: SizedPayload> St<P> {
         self.released(ai, kind, moved);
         self.slots.remove(i);
         let o = self.allocs[ai].owners;
-        self.log(|| format!("release slot {} ({:?}, alloc #{}) via {}; owners now {}", i, kind, ai, how, o));
+        if unwound {
+            self.facts.drop_panics += 1;
+        }
+        self.log(|| format!("release slot {} ({:?}, alloc #{}) via {}{}; owners now {}", i, kind, ai, how, if unwound { " (the payload's destructor panicked)" } else { "" }, o));
     }
 
     fn check_moved_out(&mut self, v: &P, ai: usize, how: &'static str) {
@@ -980,6 +1001,7 @@ impl<P: SizedPayload> St<P> {
                 if kind != Kind::Arc {
                     self.facts.clones_nonarc += 1;
                 }
+                self.facts.clone_froms += 1;
                 let (oi, oj) = (self.allocs[ai].owners, self.allocs[aj].owners);
                 self.log(|| format!("clone_from{}: slot {} ({:?}, alloc #{}, owners now {}) <- slot {} (alloc #{}, owners now {})", if via_container { " (Option<_>)" } else { "" }, i, kind, ai, oi, j, aj, oj));
             }
@@ -1298,6 +1320,12 @@ impl<P: SizedPayload> Engine for SizedEngine<P> {
         }
         if last_differs {
             labels.push("last-owner-kind!=creator");
+        }
+        if facts.drop_panics >= 1 {
+            labels.push("a payload destructor panicked during a release");
+        }
+        if facts.clone_froms >= 1 {
+            labels.push("clone_from");
         }
         if facts.conversions >= 3 {
             labels.push(">=3-conversions");
